@@ -166,7 +166,18 @@ def accessor_like(F, f):
     for _bi, t in calls:
         if "indirect" in t["callee"] or (t["callee"].get("resolved") or t["callee"].get("path")) in F.fns:
             return False
-    return True
+    # .. and it reads a field of self (`self.0.get(k)`): a method computing from constants (`Self::ALL.get(i)`) is an operation
+    # of the type that rules know by name, not a view of the value's storage
+    from . import prov as P_
+    pr = P_.Prov(f)
+    for _bi, t in calls:
+        if t["args"]:
+            a0 = P_.strip(pr.operand(t["args"][0]))
+            while a0[0] == "field":
+                if P_.strip(a0[1]) == ("param", 1):
+                    return True
+                a0 = P_.strip(a0[1])
+    return False
 
 
 def helper_paths(F, closures_only=False):
